@@ -119,6 +119,8 @@ def build_asset(a, built, tz=None):
             kw[k] = o
         elif k in ('base', 'assets'):
             continue
+        elif k == 'x_no_heat':
+            kw['_no_heat'] = bool(v)
         else:
             kw[k] = copy.deepcopy(v)
     nodes = [_node(built, n) for n in node_names] if node_names is not None else None
